@@ -93,7 +93,12 @@ fn enqueue(tx: &mut futures::channel::mpsc::Sender<Socket<u8, MockErr>>, sinks: 
 }
 
 fn run<const P: usize>(sinks: usize, streams: usize, max_tokens: usize, faults: bool) {
-    unsafe { shim_world::FAULTS = faults };
+    unsafe {
+        shim_world::FAULTS = faults;
+        // C09, first sentence: one scheduling step polls the publisher streams at most once
+        // per registration, message and stream end available, plus a constant
+        shim_world::SM_STEP_LIMIT = sinks + streams + max_tokens + streams + 2 + if faults { 2 } else { 0 };
+    }
     pubw().max_tokens = max_tokens;
     let (mut topic, mut tx) = Topic::<u8, MockErr>::pair();
     enqueue(&mut tx, sinks, streams);
@@ -103,6 +108,7 @@ fn run<const P: usize>(sinks: usize, streams: usize, max_tokens: usize, faults: 
         if p > 0 {
             wake();
         }
+        unsafe { shim_world::SM.polls = 0 };
         let r = Pin::new(&mut topic).poll(&mut cx);
         safety();
         match r {
@@ -121,9 +127,9 @@ fn run<const P: usize>(sinks: usize, streams: usize, max_tokens: usize, faults: 
 }
 
 proof!(t_pubsub_s1_p1_t2_polls3, 8, { run::<3>(1, 1, 2, false) });
-proof!(t_pubsub_s2_p1_t2_polls4, 8, { run::<4>(2, 1, 2, false) });
-proof!(t_pubsub_s2_p2_t3_polls5, 9, { run::<5>(2, 2, 3, false) });
-proof!(t_pubsub_faults_s2_p1_t2_polls4, 8, { run::<4>(2, 1, 2, true) });
+proof!(t_pubsub_s2_p1_t2_polls4, 10, { run::<4>(2, 1, 2, false) });
+proof!(t_pubsub_s2_p2_t3_polls5, 13, { run::<5>(2, 2, 3, false) });
+proof!(t_pubsub_faults_s2_p1_t2_polls4, 12, { run::<4>(2, 1, 2, true) });
 
 /// C16 / last clause of C01: after a symbolic prefix the server closes the registration
 /// channel and the subscribers accept data. A closed channel never answers Pending, so
@@ -133,6 +139,7 @@ proof!(t_pubsub_faults_s2_p1_t2_polls4, 8, { run::<4>(2, 1, 2, true) });
 /// and flushed everything it had taken from a publisher.
 fn shutdown<const P: usize>(sinks: usize, max_tokens: usize) {
     pubw().max_tokens = max_tokens;
+    unsafe { shim_world::SM_STEP_LIMIT = sinks + 1 + max_tokens + 1 + 2 };
     let (mut topic, mut tx) = Topic::<u8, MockErr>::pair();
     enqueue(&mut tx, sinks, 1);
     let mut cx = cx();
@@ -141,6 +148,7 @@ fn shutdown<const P: usize>(sinks: usize, max_tokens: usize) {
         if p > 0 {
             wake();
         }
+        unsafe { shim_world::SM.polls = 0 };
         let r = Pin::new(&mut topic).poll(&mut cx);
         safety();
         if r.is_ready() {
@@ -151,6 +159,7 @@ fn shutdown<const P: usize>(sinks: usize, max_tokens: usize) {
     tx.close_channel();
     unsafe { shim_world::CALM = true };
     let taken = pubw().ny;
+    unsafe { shim_world::SM.polls = 0 };
     let r = Pin::new(&mut topic).poll(&mut cx);
     safety();
     assert!(r.is_ready(), "router terminates once the registration channel is closed and subscribers accept data");
@@ -163,4 +172,4 @@ fn shutdown<const P: usize>(sinks: usize, max_tokens: usize) {
 }
 proof!(t_pubsub_shutdown_p0, 8, { shutdown::<0>(1, 1) });
 proof!(t_pubsub_shutdown_p2, 8, { shutdown::<2>(1, 2) });
-proof!(t_pubsub_shutdown_p3, 8, { shutdown::<3>(2, 2) });
+proof!(t_pubsub_shutdown_p3, 10, { shutdown::<3>(2, 2) });
